@@ -45,17 +45,17 @@ type c23Op struct {
 }
 
 type c23Scenario struct {
-	Seed     uint64     `json:"seed"`
-	Nodes    int        `json:"nodes"`
-	Clients  int        `json:"clients"`
-	QCap     int        `json:"qcap"`
-	QBatch   int        `json:"qbatch"`
-	QToMs    int        `json:"qto_ms"`
-	QTx      bool       `json:"qtx,omitempty"`
-	Knobs    node.Knobs `json:"knobs"`
-	Tick     float64    `json:"tick"`
-	NoFault  bool       `json:"no_fault,omitempty"`
-	Ops      []c23Op    `json:"ops"`
+	Seed    uint64     `json:"seed"`
+	Nodes   int        `json:"nodes"`
+	Clients int        `json:"clients"`
+	QCap    int        `json:"qcap"`
+	QBatch  int        `json:"qbatch"`
+	QToMs   int        `json:"qto_ms"`
+	QTx     bool       `json:"qtx,omitempty"`
+	Knobs   node.Knobs `json:"knobs"`
+	Tick    float64    `json:"tick"`
+	NoFault bool       `json:"no_fault,omitempty"`
+	Ops     []c23Op    `json:"ops"`
 }
 
 func c23Gen(r *core.Rand, tier string) any {
@@ -494,19 +494,11 @@ func c23Run(c *core.Ctx, raw json.RawMessage) {
 		n, cl, rq, st int
 	}
 	var rows []row
-	okRead := false
-	d.do("final-read", 30*time.Second, func() {
-		qr := &proto.QueryRequest{Level: proto.ConsistencyLevel_STRONG, Request: &proto.Request{Statements: []*proto.Statement{{Sql: "SELECT id,n,c,r,s FROM q ORDER BY id"}}}}
-		res, _, _, err := ldr.Store.Query(context.Background(), qr)
-		if err != nil || len(res) != 1 || res[0].Error != "" {
-			return
-		}
-		for _, v := range res[0].Values {
-			p := v.Parameters
-			rows = append(rows, row{p[0].GetI(), int(p[1].GetI()), int(p[2].GetI()), int(p[3].GetI()), int(p[4].GetI())})
-		}
-		okRead = true
-	})
+	vals, okRead := hxStrongRead(d, view, "SELECT id,n,c,r,s FROM q ORDER BY id")
+	for _, v := range vals {
+		p := v.Parameters
+		rows = append(rows, row{p[0].GetI(), int(p[1].GetI()), int(p[2].GetI()), int(p[3].GetI()), int(p[4].GetI())})
+	}
 	if !okRead {
 		c.Discard("final-read-failed")
 		return
@@ -515,9 +507,9 @@ func c23Run(c *core.Ctx, raw json.RawMessage) {
 	nmu.Lock()
 	all := append([]c23Note(nil), notes...)
 	nmu.Unlock()
-	batchSeqs := map[int][]int64{}   // node -> batch sequence numbers in dequeue order
+	batchSeqs := map[int][]int64{}     // node -> batch sequence numbers in dequeue order
 	retries := map[int]map[int64]int{} // node -> batch seq -> failed attempts
-	accSeqs := map[int][]int64{}     // node -> accepted sequence numbers in acceptance order
+	accSeqs := map[int][]int64{}       // node -> accepted sequence numbers in acceptance order
 	for _, nt := range all {
 		i := addrIdx[nt.addr]
 		switch nt.kind {
